@@ -14,6 +14,14 @@ def register(ix):
     register_end(ix)
     register_filter(ix)
     register_selectors(ix)
+    register_selector_lemmas(ix)
+    register_count(ix)
+    register_print(ix)
+    register_countfrom(ix)
+    register_slice(ix)
+    register_chunks(ix)
+    register_progress(ix)
+    register_chain(ix)
 
 
 # ---------------------------------------------------------------------------------------------- reference functions
@@ -52,21 +60,62 @@ def register_specs(ix):
     from pyvc.smt import AND, OR, IMP, NOT, TRUE, FALSE
 
     def apply_leaf(ip, st, f, v):
-        """all outcomes of f(v): ([(extra path conditions, value)], [(extra path conditions, exception)])"""
+        """all outcomes of f(v) for a closure f: (normal [(branch conditions, truth of the value)], raising [branch
+        conditions]).  The closure's body is run by the interpreter; the path conditions it adds are split into BRANCH
+        conditions (the complement is the condition of another outcome) and ASSUMED facts (well-formedness of abstract
+        values, postconditions of callees): the latter are hypotheses of whatever clause is being evaluated -- they go to
+        the enclosing forall_v, or into the state.  The result constant of a callee whose postcondition defines it
+        (`res == term`) is replaced by that term (it is new, and may depend on a quantified v)."""
+        import re
         from pyvc.calls import call_value
         from pyvc.interp import Unsupported
         if not (isinstance(f, Fun) and f.kind == "lambda"):
             raise Unsupported("leaf of a selector: abstract callable or lambda expected, got %r" % (f,))
         s0 = st.copy()
-        n, ne = len(s0.pc), len(ip._exc_out)
+        n, ne, nv = len(s0.pc), len(ip._exc_out), len(ip.vcs)
         saved, ip.spec_mode = ip.spec_mode, 0        # the closure's body is code, not a specification: exceptions are explored
         try:
             outs = call_value(ip, s0, f, [v], {})
         finally:
             ip.spec_mode = saved
+        inner = ip.vcs[nv:]          # obligations of the body itself (preconditions of its callees): see leaf_safe
+        del ip.vcs[nv:]
+        ip._leaf_obligations = [IMP(AND(*vc.hyps[n:]), vc.goal) for vc in inner]
         exc = ip._exc_out[ne:]
         del ip._exc_out[ne:]
-        return [(s.pc[n:], r) for s, r in outs], [(s.pc[n:], e) for s, e in exc]
+        paths = [(list(s.pc[n:]), ip.truth(s, r)) for s, r in outs] + [(list(s.pc[n:]), None) for s, e in exc]
+        allh = {h.s for hs, _ in paths for h in hs}
+        assumed, res = [], []
+        for hs, t in paths:
+            branch = []
+            for h in hs:
+                if NOT(h).s in allh:
+                    branch.append(h)
+                elif h.s not in {a.s for a in assumed}:
+                    assumed.append(h)
+            res.append((branch, t))
+        # result constants defined by an equation
+        subst = {}
+        for a in list(assumed):
+            m = re.match(r"^\(= (\|res_[^|]*\|) (.*)\)$", a.s)
+            if m:
+                subst[m.group(1)] = m.group(2)
+                assumed.remove(a)
+
+        def sub(t):
+            x = t.s
+            for k, d in subst.items():
+                x = x.replace(k, d)
+            return T(x, t.sort)
+        assumed = [sub(a) for a in assumed]
+        res = [([sub(h) for h in b], (sub(t) if t is not None else None)) for b, t in res]
+        sink = getattr(ip, "_leaf_assumed", None)
+        for a in assumed:
+            if sink is not None:
+                sink.append(a)
+            else:
+                st.assume(a)
+        return [(b, t) for b, t in res if t is not None], [b for b, t in res if t is None]
 
     def sp_leaf_true(ip, st, pos, kws):
         """leaf_true(f, v): f(v) returns normally with a true value"""
@@ -74,7 +123,7 @@ def register_specs(ix):
         if isinstance(f, Opaque) and f.sort == "Obj":
             return sp_selected(ip, st, [f, v], {})
         outs, _ = apply_leaf(ip, st, f, v)
-        return Bool(OR(*[AND(*(list(h) + [ip.truth(st, r)])) for h, r in outs]))
+        return Bool(OR(*[AND(*(list(b) + [t])) for b, t in outs]))
 
     def sp_leaf_raises(ip, st, pos, kws):
         """leaf_raises(f, v): f(v) raises"""
@@ -83,20 +132,36 @@ def register_specs(ix):
             ip.reg.ufun("el_call_raises", ["Obj", "V"], "Bool")
             return Bool(T("(el_call_raises %s %s)" % (f.t.s, v_term(ip, v).s), "Bool"))
         _, exc = apply_leaf(ip, st, f, v)
-        return Bool(OR(*[AND(*h) for h, e in exc]))
+        return Bool(OR(*[AND(*b) for b in exc]))
+
+    def sp_leaf_safe(ip, st, pos, kws):
+        """leaf_safe(f, v): every obligation inside the body of the closure f (preconditions of the functions it calls)
+        holds when it is applied to v -- leaf_true / leaf_raises assume them"""
+        f, v = pos
+        if isinstance(f, Opaque) and f.sort == "Obj":
+            return Bool(TRUE)
+        apply_leaf(ip, st, f, v)
+        return Bool(AND(*ip._leaf_obligations))
 
     def sp_forall_v(ip, st, pos, kws):
-        """forall_v(lambda v: body): body holds for every flow value v"""
+        """forall_v(lambda v: body): body holds for every flow value v (under the well-formedness facts the evaluation
+        of the body assumes about v)"""
         from pyvc.calls import call_value
         f = pos[0]
         ip.reg.need("V")
         q = T("fv%d" % next(ip.bound), "V")
-        outs = call_value(ip, st.copy(), f, [Opaque(q)], {})
-        if len(outs) != 1:
-            raise U_("forall_v: the body forks")
-        body = ip.truth(st, outs[0][1])
-        extra = outs[0][0].pc[len(st.pc):]
-        return Bool(T("(forall ((%s V)) %s)" % (q.s, IMP(AND(*extra), body).s), "Bool"))
+        saved = getattr(ip, "_leaf_assumed", None)
+        ip._leaf_assumed = []
+        try:
+            s0 = st.copy()
+            outs = call_value(ip, s0, f, [Opaque(q)], {})
+            if len(outs) != 1:
+                raise U_("forall_v: the body forks")
+            body = ip.truth(st, outs[0][1])
+            hyps = list(outs[0][0].pc[len(st.pc):]) + ip._leaf_assumed
+        finally:
+            ip._leaf_assumed = saved
+        return Bool(T("(forall ((%s V)) %s)" % (q.s, IMP(AND(*hyps), body).s), "Bool"))
 
     def U_(msg):
         from pyvc.interp import Unsupported
@@ -126,14 +191,77 @@ def register_specs(ix):
         return [(st, Bool(is_class_term(ip, pos[0])))]
     ix.lib[("inspect", "isclass")] = lib_isclass
 
-    def sp_ctx_contains(ip, st, pos, kws):
-        """ctx_contains(d, s): lena.context.contains(d, s) as a function of the VALUE of the dictionary and the string"""
-        from pyvc.dicts import dterm
-        ip.reg.need_val()
-        f = ip.reg.ufun("ctx_contains", ["Val", "Key"], "Bool")
-        return Bool(T("(%s %s %s)" % (f, dterm(ip, st, pos[0]).s, ip.key_term(pos[1]).s), "Bool"))
+    def sp_contains_spec(ip, st, pos, kws):
+        """contains_spec(d, s, r): r is what lena.context.contains(d, s) returns for a dictionary d according to its
+        contract (C08.py, proved there): a key test for a string without dots, else the reference `contains_ref` over the
+        dot-separated components"""
+        from pyvc.calls import eval_spec
+        env = {"d_": pos[0], "s_": pos[1], "r_": pos[2]}
+        return Bool(AND(eval_spec(ip, st, env, "len(split_dots(s_)) < 2 implies r_ == (s_ in d_)"),
+                        eval_spec(ip, st, env, "len(split_dots(s_)) >= 2 implies r_ == contains_ref(d_, split_dots(s_))")))
+    def sp_el_fill_pair(ip, st, pos, kws):
+        """el_fill_pair(el, s, data, context): the state of el after fill((data, context)) in state s (the pair is folded
+        into one flow value exactly as the engine does at the call element.fill((data, context)))"""
+        from pyvc.calls import as_flow_value
+        from pyvc.sym import Tup
+        from pyvc.speclib import st_term
+        f = ip.reg.ufun("el_fill", ["Obj", "St", "V"], "St")
+        v = as_flow_value(ip, st, Tup([pos[2], pos[3]]))
+        return Opaque(T("(%s %s %s %s)" % (f, obj_term(pos[0]).s, st_term(pos[1]).s, v.t.s), "St"))
+    ix.spec_names["el_fill_pair"] = sp_el_fill_pair
+
+    # ---- ghost state of the arithmetic-progression iterator islice(itertools.count(0), start, stop, step)
+    def arith_cell(ip, st, v):
+        from pyvc.sym import Ref, IterCell
+        if isinstance(v, Ref) and isinstance(st.heap.get(v.cid), IterCell) and getattr(st.heap[v.cid], "kind", None) == "arith":
+            return st.heap[v.cid]
+        raise U_("not an arithmetic-progression iterator: %r" % (v,))
+    ix.spec_names["arith_step"] = lambda ip, st, pos, kws: Num((lambda k: k if hasattr(k, "s") else T(str(k), "Int"))(arith_cell(ip, st, pos[0]).step))
+    ix.spec_names["arith_stop"] = lambda ip, st, pos, kws: Num(arith_cell(ip, st, pos[0]).stop)
+    ix.spec_names["arith_has_stop"] = lambda ip, st, pos, kws: Bool(arith_cell(ip, st, pos[0]).has_stop)
+
+    def sp_is_closure(ip, st, pos, kws):
+        """is_closure(f, 'lambda ...', name=value, ...): f is a function object created from exactly this lambda expression
+        whose free variables are bound to the given values (names that are not given must be the library functions of
+        LIB_NAMES).  The behaviour of such an object is fixed by its text and its environment."""
+        import ast as _ast
+        from pyvc.verify import same_sv
+        from pyvc.sym import Str as S_
+        f, text = pos
+        if not isinstance(text, S_):
+            raise U_("is_closure: the lambda is given as a string literal")
+        node = _ast.parse(text.s, mode="eval").body
+        if not (isinstance(f, Fun) and f.kind == "lambda" and isinstance(node, _ast.Lambda)):
+            return Bool(FALSE)
+        if _ast.dump(f.node) != _ast.dump(node):
+            return Bool(FALSE)
+        params = {a.arg for a in node.args.args}
+        free = sorted({n.id for n in _ast.walk(node.body) if isinstance(n, _ast.Name)} - params)
+        conj = []
+        for name in free:
+            have = f.env.get(name)
+            if name in kws:
+                conj.append(same_sv(ip, st, have, st, kws[name]) if have is not None else FALSE)
+            elif name in LIB_NAMES:
+                ok = isinstance(have, Fun) and have.kind == "lib" and have.impl is ip.contracts.lib.get(LIB_NAMES[name])
+                conj.append(TRUE if ok else FALSE)
+            else:
+                raise U_("is_closure: free variable %s is not bound by the clause" % name)
+        return Bool(AND(*conj))
+
+    def sp_chunk_call(star):
+        def sp(ip, st, pos, kws):
+            """chunk_call(c, xs, k, size) = c(xs[k:k+size]) / chunk_call_star(..) = c(*xs[k:k+size]) for an abstract container c"""
+            from pyvc.lib_flow import list_call_term, shifted
+            xs = lst_term(ip, st, pos[1], ip.reg.lst("V"))
+            return Opaque(list_call_term(ip, obj_term(pos[0]), shifted(ip, xs, ip.num(pos[2]), ip.num(pos[3])), star))
+        return sp
+    ix.spec_names["chunk_call"] = sp_chunk_call(False)
+    ix.spec_names["chunk_call_star"] = sp_chunk_call(True)
+    LIB_NAMES = {"islice": ("itertools", "islice")}
+    ix.spec_names["is_closure"] = sp_is_closure
     for name, fn in [("leaf_true", sp_leaf_true), ("leaf_raises", sp_leaf_raises), ("forall_v", sp_forall_v),
-                     ("isclass", lambda ip, st, pos, kws: Bool(is_class_term(ip, pos[0]))), ("ctx_contains", sp_ctx_contains)]:
+                     ("isclass", lambda ip, st, pos, kws: Bool(is_class_term(ip, pos[0]))), ("contains_spec", sp_contains_spec), ("leaf_safe", sp_leaf_safe)]:
         ix.spec_names[name] = fn
 
 
@@ -153,38 +281,50 @@ def register_end(ix):
 def register_filter(ix):
     """`Yield values from the flow for which the selector is True` / `Fill value into an element if selector(value) is
     True`: the results are the selected values, in order, each the very object that came in (C15: Filter keeps exactly the
-    selected values); C02: when the k-th result is handed over nothing beyond the value it came from has been pulled."""
-    S = "self._selector"
+    selected values); C02: when the k-th result is handed over nothing beyond the value it came from has been pulled.
+    Two views of the stored selector: an abstract callable, and a Selector object (what Filter.__init__ stores) whose leaf
+    L is an abstract callable -- selected(L, v) then is Selector.__call__: an error of the leaf counts as not selected
+    unless raise_on_error, in which case it travels through Filter."""
     XS = "content(flow)"
     ix.add_class(ClassSpec("Filter", FI, fields={"_selector": "Obj"}))
-    INV = ["pulled(flow) == _i", "len(out) == nsel(%s, %s, _i)" % (S, XS),
-           # position of every selected value among the results (with the two bounds that make it inductive)
-           "all(implies(selected(%s, %s[k]), nsel(%s, %s, k) < len(out) and out[nsel(%s, %s, k)] is %s[k]) for k in range(_i))"
-           % (S, XS, S, XS, S, XS, XS),
-           "all(nsel(%s, %s, k) <= len(out) for k in range(_i + 1))" % (S, XS),
-           "all(not el_call_raises(%s, %s[k]) for k in range(_i))" % (S, XS)]
-    ix.add(Contract(
-        FI, "Filter.run", props=["C15", "C02"],
-        params={"self": "Self[Filter]", "flow": "Iter[V]"}, generator=True, yields="V",
-        requires=["pulled(flow) == 0"],
-        loops={0: LoopSpec(invariant=INV)},
-        # an exception of the selector travels through the generator (Selector objects decide themselves: raise_on_error)
-        raises={"Exception": "any(el_call_raises(%s, %s[k]) for k in range(len(%s)))" % (S, XS, XS)},
-        at_yield=["pulled(flow) == _i + 1", "yielded is %s[_i]" % XS, "selected(%s, yielded)" % S,
-                  "len(out) == nsel(%s, %s, _i)" % (S, XS)],
-        ensures=["len(out) == nsel(%s, %s, len(%s))" % (S, XS, XS),
-                 "all(implies(selected(%s, %s[k]), out[nsel(%s, %s, k)] is %s[k]) for k in range(len(%s)))" % (S, XS, S, XS, XS, XS),
-                 "pulled(flow) == len(%s)" % XS],
-        modifies=["flow"]))
-    ix.add(Contract(
-        FI, "Filter.fill_into", props=["C15"],
-        params={"self": "Self[Filter]", "element": "Obj", "value": "V"}, result=None, ghost={"elstate": True},
-        # (LenaStopFill first: the more specific class is matched first; any OTHER exception comes from the selector)
-        raises={"LenaStopFill": "selected(%s, value) and el_fill_stops(element, old(elstate(element)), value)" % S,
-                "Exception": "el_call_raises(%s, value)" % S},
-        ensures=["selected(%s, value) implies elstate(element) == el_fill(element, old(elstate(element)), value)" % S,
-                 "not selected(%s, value) implies elstate(element) == old(elstate(element))" % S],
-        exc_ensures={"Exception": ["elstate(element) == old(elstate(element))"]}))
+    ix.add_class(ClassSpec("Filter_sel", FI, fields={"_selector": "Inst[Selector]"}, alias_of="Filter"))
+
+    def run_case(name, selfty, S, guard):
+        RAISES = "(%s el_call_raises(%s, %s[k]))" % (guard, S, XS)
+        INV = ["pulled(flow) == _i", "len(out) == nsel(%s, %s, _i)" % (S, XS),
+               # position of every selected value among the results (with the two bounds that make it inductive)
+               "all(implies(selected(%s, %s[k]), nsel(%s, %s, k) < len(out) and out[nsel(%s, %s, k)] is %s[k]) for k in range(_i))"
+               % (S, XS, S, XS, S, XS, XS),
+               "all(nsel(%s, %s, k) <= len(out) for k in range(_i + 1))" % (S, XS),
+               "all(not %s for k in range(_i))" % RAISES]
+        return Contract(
+            FI, "Filter.run", name="Filter.run[%s]" % name,
+            params={"self": selfty, "flow": "Iter[V]"}, generator=True, yields="V",
+            requires=["pulled(flow) == 0"],
+            loops={0: LoopSpec(invariant=INV)},
+            raises={"Exception": "any(%s for k in range(len(%s)))" % (RAISES, XS)},
+            at_yield=["pulled(flow) == _i + 1", "yielded is %s[_i]" % XS, "selected(%s, yielded)" % S,
+                      "len(out) == nsel(%s, %s, _i)" % (S, XS)],
+            ensures=["len(out) == nsel(%s, %s, len(%s))" % (S, XS, XS),
+                     "all(implies(selected(%s, %s[k]), out[nsel(%s, %s, k)] is %s[k]) for k in range(len(%s)))" % (S, XS, S, XS, XS, XS),
+                     "pulled(flow) == len(%s)" % XS],
+            modifies=["flow"])
+
+    def fill_case(name, selfty, S, guard):
+        return Contract(
+            FI, "Filter.fill_into", name="Filter.fill_into[%s]" % name,
+            params={"self": selfty, "element": "Obj", "value": "V"}, result=None, ghost={"elstate": True},
+            # (LenaStopFill first: the more specific class is matched first; any OTHER exception comes from the selector)
+            raises={"LenaStopFill": "selected(%s, value) and el_fill_stops(element, old(elstate(element)), value)" % S,
+                    "Exception": "%s el_call_raises(%s, value)" % (guard, S)},
+            ensures=["selected(%s, value) implies elstate(element) == el_fill(element, old(elstate(element)), value)" % S,
+                     "not selected(%s, value) implies elstate(element) == old(elstate(element))" % S],
+            exc_ensures={"Exception": ["elstate(element) == old(elstate(element))"]})
+    VIEWS = [("abstract callable", "Self[Filter]", "self._selector", ""),
+             ("Selector object", "Self[Filter_sel]", "self._selector._selector", "self._selector._raise_on_error and")]
+    # (C05: the two routes select the same values -- `selected` is the same predicate in both contracts)
+    ix.add(Contract(FI, "Filter.run", props=["C15", "C02", "C05"], cases=[run_case(*v) for v in VIEWS]))
+    ix.add(Contract(FI, "Filter.fill_into", props=["C15", "C05"], cases=[fill_case(*v) for v in VIEWS]))
 
 
 # ---------------------------------------------------------------------------------------------- selectors
@@ -194,12 +334,6 @@ def register_selectors(ix):
     to ANY flow value gives (leaf_true / leaf_raises, quantified by forall_v); callers see a new Selector as an object whose
     `_selector` is an abstract callable with exactly these facts (post_class), which is what Selector.__call__ / Not / And /
     Or of C15.py start from."""
-    CF = "lena/context/functions.py"
-    ix.add(Contract(CF, "contains", props=[], trusted=True, params={"d": "Dict", "s": "Str"}, result="Bool",
-                    ensures=["result == ctx_contains(d, s)"],
-                    notes="assumed at the call in the string leaf of Selector.__init__: lena.context.contains is a function "
-                          "of the value of the dictionary and the string, raises nothing and changes nothing (its own "
-                          "behaviour -- splitting the string at dots -- is outside the encoding of strings)"))
     ix.add_class(ClassSpec("Selector0", SE, fields={}, alias_of="Selector"))
     MOD = ["self._selector_repr", "self._from_callable", "self._orig_class", "self._orig_str", "self._selector",
            "self._raise_on_error"]
@@ -209,7 +343,7 @@ def register_selectors(ix):
     def leaf_post(leaf, x):
         """the leaf made of the abstract object x (a class or a callable)"""
         return ["isclass({x}) implies forall_v(lambda v: leaf_true({l}, v) == %s)" % CLS_REF,
-                "isclass({x}) implies forall_v(lambda v: not leaf_raises({l}, v))",
+                "isclass({x}) implies forall_v(lambda v: not leaf_raises({l}, v) and leaf_safe({l}, v))",
                 "not isclass({x}) implies {l} is {x}"], "not isclass({x}) and not callable({x})"
 
     def fmt(clauses, **kw):
@@ -225,12 +359,549 @@ def register_selectors(ix):
         Contract(SE, "Selector.__init__", name="Selector.__init__[string]",
                  params={"self": "Self[Selector0]", "selector": "Str", "raise_on_error": "Bool"},
                  ensures=["self._raise_on_error == raise_on_error",
-                          "forall_v(lambda v: leaf_true(self._selector, v) == ctx_contains(vctx(v), selector))",
-                          "forall_v(lambda v: not leaf_raises(self._selector, v))"],
+                          "forall_v(lambda v: contains_spec(vctx(v), selector, leaf_true(self._selector, v)))",
+                          "forall_v(lambda v: not leaf_raises(self._selector, v) and leaf_safe(self._selector, v))"],
                  modifies=MOD, post_class="Selector"),
     ]
     for ty in ("Int", "Real", "None", "Bool"):
         cases.append(Contract(SE, "Selector.__init__", name="Selector.__init__[%s]" % ty.lower(),
                               params={"self": "Self[Selector0]", "selector": ty, "raise_on_error": "Bool"},
                               raises={"LenaTypeError": "True"}, modifies=MOD))
+    # ---- containers: a list is Or, a tuple is And; every item that is not a Selector already is converted with the
+    # same raise_on_error.  Items: abstract objects (class / callable / other) and Selector objects, up to 2 items
+    import itertools
+    for cls in ("And", "Or"):
+        ix.classes[cls].bases = ["Selector"]         # (class %s(Selector): super().__init__ is Selector.__init__)
+        ix.add_class(ClassSpec(cls + "0", SE, fields={"_raise_on_error": "Bool"}, alias_of=cls))
+        for n in range(3):
+            ix.add_class(ClassSpec("%s_%d" % (cls, n), SE, alias_of=cls,
+                                   fields={"_selectors": "PyList[%d,Inst[Selector]]" % n, "_raise_on_error": "Bool"}))
+            ix.add_class(ClassSpec("Selector_%s_%d" % (cls.lower(), n), SE, alias_of="Selector",
+                                   fields={"_selector": "Inst[%s_%d]" % (cls, n), "_raise_on_error": "Bool"}))
+
+    def items_spec(coll, items, tys):
+        """(requires, ensures, LenaTypeError condition) for the selectors `coll`[i] made of the given `items`[i]"""
+        req, ens, bad = [], [], []
+        for i, ty in enumerate(tys):
+            x, l = "%s[%d]" % (items, i), "%s[%d]" % (coll, i)
+            if ty == "Obj":
+                req += [r % x for r in NOT_CONTAINER] + ["not is_instance_of(%s, 'Selector')" % x]
+                pst, b = leaf_post(l + "._selector", x)
+                ens += ["is_instance_of(%s, 'Selector')" % l, "%s._raise_on_error == raise_on_error" % l] \
+                    + fmt(pst, l=l + "._selector", x=x)
+                bad.append("(%s)" % b.format(x=x))
+            else:
+                ens.append("%s is %s" % (l, x))         # a Selector is taken as it is (its own raise_on_error stays)
+        return req, ens, " or ".join(bad) or "False"
+
+    def container_cases(cls):
+        out = []
+        for n in range(3):
+            for tys in itertools.product(("Obj", "Inst[Selector]"), repeat=n):
+                kinds = ["Tuple[%s]" % ",".join(tys)]
+                if len(set(tys)) <= 1:
+                    kinds.append("PyList[%d,%s]" % (n, tys[0] if tys else "Obj"))
+                for kind in kinds:
+                    req, ens, bad = items_spec("self._selectors", "selectors", tys)
+                    out.append(Contract(
+                        SE, cls + ".__init__", name="%s.__init__[%s]" % (cls, kind),
+                        params={"self": "Self[%s0]" % cls, "selectors": kind, "raise_on_error": "Bool"},
+                        requires=req, raises={"LenaTypeError": bad},
+                        ensures=["len(self._selectors) == %d" % n, "self._selector is self",
+                                 "self._raise_on_error == raise_on_error"] + ens,
+                        modifies=MOD + ["self._selectors"], post_class="%s_%d" % (cls, n)))
+        return out
+    for cls in ("And", "Or"):
+        ix.add(Contract(SE, cls + ".__init__", props=["C15"], cases=container_cases(cls)))
+    # (tuple cases first: the engine lets a tuple argument fit a PyList[...] parameter, not the other way round)
+    for cls, kind in (("And", "Tuple[%s]"), ("Or", "PyList[%d,Obj]")):
+        for n in range(3):
+            ty = kind % n if cls == "Or" else kind % ",".join(["Obj"] * n)
+            req, ens, bad = items_spec("self._selector._selectors", "selector", ["Obj"] * n)
+            cases.append(Contract(
+                SE, "Selector.__init__", name="Selector.__init__[%s of %d objects]" % ("list" if cls == "Or" else "tuple", n),
+                params={"self": "Self[Selector0]", "selector": ty, "raise_on_error": "Bool"},
+                requires=req,      # (items that are Selector objects already: see And / Or.__init__[.. Inst[Selector] ..])
+                raises={"LenaTypeError": bad},
+                ensures=["self._raise_on_error == raise_on_error", "is_instance_of(self._selector, '%s')" % cls,
+                         "self._selector._raise_on_error == raise_on_error",
+                         "len(self._selector._selectors) == %d" % n] + ens,
+                modifies=MOD, post_class="Selector_%s_%d" % (cls.lower(), n)))
+    # a Selector (And / Or pass themselves to Selector.__init__: they are callable): used as it is
+    cases.append(Contract(SE, "Selector.__init__", name="Selector.__init__[Selector object]",
+                          params={"self": "Self[Selector0]", "selector": "Inst[Selector]", "raise_on_error": "Bool"},
+                          ensures=["self._selector is selector", "self._raise_on_error == raise_on_error"],
+                          modifies=MOD))
     ix.add(Contract(SE, "Selector.__init__", props=["C15"], cases=cases))
+    # ---- evaluation of the containers the constructors build (members are Selector objects with abstract leaves):
+    # `a list is OR, a tuple is AND`, evaluated left to right with python's short circuit; a member's error propagates
+    # only if that member was built with raise_on_error (and only if it is reached)
+    def member(coll, i):
+        m = "%s[%d]" % (coll, i)
+        return ("selected(%s._selector, {v})" % m, "(%s._raise_on_error and el_call_raises(%s._selector, {v}))" % (m, m))
+
+    def container_eval(cls, coll, n, v):
+        """(value, raises) of And / Or over the members coll[0..n) applied to v"""
+        val, rs, reach = [], [], "True"
+        for i in range(n):
+            sel, r = [x.format(v=v) for x in member(coll, i)]
+            rs.append("(%s and %s)" % (reach, r))
+            val.append(sel)
+            reach = "(%s and %s)" % (reach, sel if cls == "And" else "not " + sel)
+        value = (" and " if cls == "And" else " or ").join(val) or ("True" if cls == "And" else "False")
+        return "(%s)" % value, "(%s)" % (" or ".join(rs) or "False")
+    for cls in ("And", "Or"):
+        for n in range(3):
+            value, rs = container_eval(cls, "self._selectors", n, "val")
+            ix.add(Contract(SE, cls + ".__call__", qualkey="%s_%d.__call__" % (cls, n), name="%s.__call__[%d Selector members]" % (cls, n),
+                            props=["C15"], params={"self": "Self[%s_%d]" % (cls, n), "val": "V"}, result="Bool",
+                            raises={"Exception": rs}, ensures=["result == %s" % value], raises_frame="pure"))
+            # Selector(list / tuple): the container inside a Selector; its own raise_on_error decides about errors that
+            # come out of the container
+            value, rs = container_eval(cls, "self._selector._selectors", n, "value")
+            ix.add(Contract(SE, "Selector.__call__", qualkey="Selector_%s_%d.__call__" % (cls.lower(), n),
+                            name="Selector.__call__[%s of %d members]" % (cls, n), props=["C15"],
+                            params={"self": "Self[Selector_%s_%d]" % (cls.lower(), n), "value": "V"}, result="Bool",
+                            raises={"Exception": "self._raise_on_error and %s" % rs},
+                            ensures=["result == (not %s and %s)" % (rs, value)], raises_frame="pure"))
+    # ---- Filter(selector): `If selector is not [a Selector], it is converted to a Selector.  If the conversion could
+    # not be done, LenaTypeError is raised`
+    ix.add_class(ClassSpec("Filter0", FI, fields={}, alias_of="Filter"))
+    pst, b = leaf_post("self._selector._selector", "selector")
+    ix.add(Contract(FI, "Filter.__init__", props=["C15"], cases=[
+        Contract(FI, "Filter.__init__", name="Filter.__init__[Selector object]",
+                 params={"self": "Self[Filter0]", "selector": "Inst[Selector]"},
+                 ensures=["self._selector is selector"], modifies=["self._selector"], post_class="Filter_sel"),
+        Contract(FI, "Filter.__init__", name="Filter.__init__[class, callable or other object]",
+                 params={"self": "Self[Filter0]", "selector": "Obj"},
+                 requires=[r % "selector" for r in NOT_CONTAINER] + ["not is_instance_of(selector, 'Selector')"],
+                 raises={"LenaTypeError": b.format(x="selector")},
+                 ensures=["is_instance_of(self._selector, 'Selector')", "self._selector._raise_on_error == True"]
+                 + fmt(pst, l="self._selector._selector", x="selector"),
+                 modifies=["self._selector"], post_class="Filter_sel"),
+        Contract(FI, "Filter.__init__", name="Filter.__init__[string]",
+                 params={"self": "Self[Filter0]", "selector": "Str"},
+                 ensures=["is_instance_of(self._selector, 'Selector')", "self._selector._raise_on_error == True",
+                          "forall_v(lambda v: contains_spec(vctx(v), selector, leaf_true(self._selector._selector, v)))",
+                          "forall_v(lambda v: not leaf_raises(self._selector._selector, v) and leaf_safe(self._selector._selector, v))"],
+                 modifies=["self._selector"], post_class="Filter_sel"),
+        Contract(FI, "Filter.__init__", name="Filter.__init__[number]",
+                 params={"self": "Self[Filter0]", "selector": "Real"}, raises={"LenaTypeError": "True"},
+                 modifies=["self._selector"]),
+    ]))
+    # ---- Not(selector, raise_on_error): `selector is converted to Selector` -- the same conversion, case by case
+    ix.add_class(ClassSpec("Not0", SE, fields={"_raise_on_error": "Bool"}, alias_of="Not"))
+    ncases = []
+    for c in cases:
+        pc = c.post_class
+        if pc and pc != "Selector":
+            ix.add_class(ClassSpec(pc.replace("Selector_", "Not_"), SE, alias_of="Not", bases=["Selector"],
+                                   fields=dict(ix.classes[pc].fields)))
+        ncases.append(Contract(SE, "Not.__init__", name=c.name.replace("Selector.__init__", "Not.__init__"),
+                               params=dict(c.params, self="Self[Not0]"), requires=c.requires, raises=c.raises,
+                               ensures=c.ensures, modifies=c.modifies,
+                               post_class=(pc.replace("Selector_", "Not_") if pc != "Selector" else "Not") if pc else None))
+    ix.add(Contract(SE, "Not.__init__", props=["C15"], cases=ncases))
+
+
+# ---------------------------------------------------------------------------------------------- Selector(spec)(value)
+def register_selector_lemmas(ix):
+    """C15 end to end, over the contracts only: construct a Selector from a specification (contract of __init__), apply it
+    to an arbitrary value (Selector.__call__ / the container contracts) and compare with the reference evaluation of the
+    property text.  Also a guard that what the constructor contracts promise is usable (not contradictory) at call sites."""
+    from pyvc.verify import Lemma
+
+    def lemma(name, spec_types, requires, value, raises):
+        """Selector(<spec>, roe)(v): truth of the result == `value`; an exception escapes iff `raises`"""
+        def build(ip, st):
+            from pyvc.calls import instantiate, call_value, eval_spec
+            from pyvc.interp import VC
+            from pyvc.smt import FALSE, NOT
+            from pyvc.sym import Fun, Tup, PyListCell
+            roe, v = ip.make("Bool", "roe", st), ip.make("V", "v", st)
+            xs = [ip.make(t, "x%d" % k, st) for k, t in enumerate(spec_types[1])]
+            env = {"roe": roe, "v": v}
+            env.update({"x%d" % k: x for k, x in enumerate(xs)})
+            for r in requires:
+                st.assume(eval_spec(ip, st, env, r))
+            ip.entry = st.copy()
+            ip.oldst = ip.entry
+            spec = xs[0] if spec_types[0] == "one" else Tup(xs) if spec_types[0] == "tuple" else ip.new_cell(st, PyListCell(xs))
+            cover = list(st.pc)
+            n_normal = 0
+            for s1, obj in instantiate(ip, st, Fun("class", name="Selector", mod=None), [spec, roe], {}):
+                for s2, r in call_value(ip, s1, obj, [v], {}):
+                    n_normal += 1
+                    e2 = dict(env, r=r)
+                    ip.emit("lemma", "value of Selector(spec)(v)", s2, eval_spec(ip, s2, e2, value.replace("RESULT", "bool(r)")))
+                    ip.emit("lemma", "normal result implies no error is due", s2, NOT(eval_spec(ip, s2, env, raises)))
+                    # (at least one of these states must be satisfiable: the hypotheses taken from the contracts are consistent)
+                    ip.vcs.append(VC("canary ensures False#%d" % n_normal, "canary", list(s2.pc), FALSE, s2.trace))
+            for s3, exc in ip._exc_out:
+                ip.emit("lemma", "%s only if an error is due" % exc.cls, s3,
+                        eval_spec(ip, s3, env, raises) if exc.cls == "Exception" else FALSE)
+            ip._exc_out = []
+            if not n_normal:
+                ip.emit("lemma", "the selector can be constructed and applied", st, FALSE)
+            ip.vcs.append(VC("cover requires", "cover", cover, FALSE, ""))
+        return Lemma(name, SE, ["C15"], build,
+                     notes="over the contracts of Selector.__init__ and of __call__ (Selector / And / Or): no function body")
+    OBJ = ["not isinstance({x}, str)", "not isinstance({x}, list)", "not isinstance({x}, tuple)"]
+    LEAF = OBJ + ["callable({x})", "not isclass({x})", "not is_instance_of({x}, 'Selector')"]
+    one = lambda rs, x="x0": [r.format(x=x) for r in rs]
+    ix.lemmas.append(lemma("Selector(class)(v): tests the type of the data part", ("one", ["Obj"]),
+                           one(OBJ) + ["isclass(x0)"],
+                           "RESULT == (isinstance(vdata(v), x0) if v_has_context(v) else isinstance(v, x0))", "False"))
+    ix.lemmas.append(lemma("Selector(string)(v): tests the context with contains", ("one", ["Str"]), [],
+                           "contains_spec(vctx(v), x0, RESULT)", "False"))
+    ix.lemmas.append(lemma("Selector(callable)(v): the callable is applied; its error counts as not selected unless raise_on_error",
+                           ("one", ["Obj"]), one(LEAF), "RESULT == selected(x0, v)", "roe and el_call_raises(x0, v)"))
+    ix.lemmas.append(lemma("Selector([f, g])(v): OR with short circuit", ("list", ["Obj", "Obj"]),
+                           one(LEAF, "x0") + one(LEAF, "x1"), "RESULT == (selected(x0, v) or selected(x1, v))",
+                           "roe and (el_call_raises(x0, v) or (not selected(x0, v) and el_call_raises(x1, v)))"))
+    ix.lemmas.append(lemma("Selector((f, g))(v): AND with short circuit", ("tuple", ["Obj", "Obj"]),
+                           one(LEAF, "x0") + one(LEAF, "x1"), "RESULT == (selected(x0, v) and selected(x1, v))",
+                           "roe and (el_call_raises(x0, v) or (selected(x0, v) and el_call_raises(x1, v)))"))
+
+
+# ---------------------------------------------------------------------------------------------- Count.run / fill_into
+def register_count(ix):
+    """`Yield incoming values and increase count.  After the flow is exhausted, update last value's context with
+    {self.name: self.count}.  If the flow was empty, nothing is yielded.`  C02: `Count.run keeps exactly one value of
+    look-ahead`: when the k-th value is handed over exactly k + 2 values have been pulled (it can not know earlier
+    whether the value is the last one).  (Count.__init__ / fill / compute / reset: C09.py.)"""
+    XS = "content(flow)"
+    N = "len(content(flow))"
+    LAST = "content(flow)[len(content(flow)) - 1]"
+    CTX = "all_keys(lambda k: item(%s, k) == (present(old(self.count) + %s) if k == self.name else item(old(vctx(%s)), k)))"
+    ix.add(Contract(
+        FE, "Count.run", props=["C02"],
+        params={"self": "Self[Count]", "flow": "Iter[V]"}, generator=True, yields="Any",
+        requires=["pulled(flow) == 0"],
+        ghost={"ctx_wf": ["isdict(c)"]},
+        loops={0: LoopSpec(invariant=["pulled(flow) == _i + 1", "yield_count() == _i", "count == _i + 1",
+                                      "prev_val is %s[_i]" % XS, "self.count == old(self.count)"])},
+        at_yield=[
+            # every value but the last passes as the very same object, one value behind the input
+            "in_loop(0) implies yielded is %s[yield_count()] and pulled(flow) == yield_count() + 2" % XS,
+            # the last one: its data with its own context, extended by the total count
+            "not in_loop(0) implies yield_count() == %s - 1 and pulled(flow) == %s" % (N, N),
+            "not in_loop(0) implies len(yielded) == 2",
+            "not in_loop(0) and v_has_context(%s) implies yielded[0] is vdata(%s)" % (LAST, LAST),
+            "not in_loop(0) and not v_has_context(%s) implies yielded[0] is %s" % (LAST, LAST),
+            "not in_loop(0) implies " + CTX % ("yielded[1]", N, LAST)],
+        ensures=["yield_count() == %s" % N, "self.count == old(self.count) + %s" % N,
+                 "pulled(flow) == %s" % N],
+        modifies=["self.count", "flow"]))
+    ix.add(Contract(
+        FE, "Count.fill_into", props=["C05"],
+        params={"self": "Self[Count]", "element": "Obj", "value": "V"}, result=None,
+        ghost={"elstate": True, "ctx_wf": ["isdict(c)"]},
+        raises={"LenaStopFill": "?"},
+        at_call={"fill": ["len(call_args[0]) == 2",
+                          "v_has_context(value) implies call_args[0][0] is vdata(value)",
+                          "not v_has_context(value) implies call_args[0][0] is value",
+                          CTX % ("call_args[0][1]", "1", "value")]},
+        ensures=["self.count == old(self.count) + 1",
+                 # the element is filled exactly once, with that pair
+                 "elstate(element) == el_fill_pair(element, old(elstate(element)), local(data), local(context))"],
+        exc_ensures={"LenaStopFill": ["self.count == old(self.count) + 1"]},
+        modifies=["self.count"]))
+
+
+# ---------------------------------------------------------------------------------------------- Print
+def register_print(ix):
+    """`Print and return value`: a pass-through callable (as a Run element it inherits the laziness of Run._call_run);
+    the print statement itself is dropped by the front end (DESIGN 2.5)"""
+    PR = "lena/flow/print_.py"
+    ix.add_class(ClassSpec("Print", PR, fields={"before": "Str", "sep": "Str", "end": "Str", "transform": "Obj"}))
+    ix.add(Contract(PR, "Print.__call__", props=["C02"],
+                    params={"self": "Self[Print]", "value": "V"}, result="V",
+                    ensures=["result is value"]))
+
+
+# ---------------------------------------------------------------------------------------------- CountFrom
+def register_countfrom(ix):
+    """`Generate numbers from start to infinity, with step between values.  Similar to itertools.count`: every call starts
+    a new progression (the k-th value of EACH flow is start + k * step), arguments that are no numbers are rejected at
+    construction with TypeError.  The flow has no end: there is no normal exit, the clauses live at the yields."""
+    for ty in ("Int", "Real"):
+        cs = "CountFrom" if ty == "Int" else "CountFrom_real"
+        ix.add_class(ClassSpec(cs, IT, fields={"_start": ty, "_step": ty}, alias_of=None if ty == "Int" else "CountFrom"))
+    ix.add_class(ClassSpec("CountFrom0", IT, fields={}, alias_of="CountFrom"))
+
+    def call_case(ty, cs):
+        return Contract(
+            IT, "CountFrom.__call__", name="CountFrom.__call__[%s]" % ty.lower(),
+            params={"self": "Self[%s]" % cs}, generator=True, yields=ty,
+            loops={0: LoopSpec(invariant=["len(out) == _i",
+                                          "all(out[k] == self._start + k * self._step for k in range(_i))"])},
+            at_yield=["yielded == self._start + len(out) * self._step"],
+            modifies=[])
+    ix.add(Contract(IT, "CountFrom.__call__", props=["C17", "C02"],
+                    cases=[call_case("Int", "CountFrom"), call_case("Real", "CountFrom_real")]))
+    MOD = ["self._start", "self._step"]
+    icases = []
+    for a, b in (("Int", "Int"), ("Real", "Real"), ("Int", "Real"), ("Real", "Int")):
+        icases.append(Contract(IT, "CountFrom.__init__", name="CountFrom.__init__[%s, %s]" % (a.lower(), b.lower()),
+                               params={"self": "Self[CountFrom0]", "start": a, "step": b},
+                               ensures=["self._start == start", "self._step == step"], modifies=MOD))
+    for a, b in (("None", "Int"), ("Int", "None"), ("Str", "Int"), ("Int", "Str")):
+        icases.append(Contract(IT, "CountFrom.__init__", name="CountFrom.__init__[%s, %s]" % (a.lower(), b.lower()),
+                               params={"self": "Self[CountFrom0]", "start": a, "step": b},
+                               raises={"TypeError": "True"}, modifies=MOD))
+    ix.add(Contract(IT, "CountFrom.__init__", props=["C17"], cases=icases))
+
+
+# ---------------------------------------------------------------------------------------------- Slice
+ISLICE_LAMBDA = "lambda iterable: islice(iterable, *args)"
+NEG_LAMBDA_1 = "lambda flow: self._run_negative_islice(flow)"
+NEG_LAMBDA_K = "lambda flow: islice(self._run_negative_islice(flow), None, None, step)"
+
+
+def slice_typings():
+    """argument lists Slice(stop) / Slice(start, stop) / Slice(start, stop, step), every component an int or None:
+    (tuple type, start, stop, step) with the components as spec expressions (None: the python None)"""
+    import itertools
+    out = []
+    for n in (1, 2, 3):
+        for tys in itertools.product(("Int", "None"), repeat=n):
+            comp = ["args[%d]" % i if t == "Int" else None for i, t in enumerate(tys)]
+            start, stop, step = (None, comp[0], None) if n == 1 else (comp[0], comp[1], None) if n == 2 else comp
+            out.append(("Tuple[%s]" % ",".join(tys), start, stop, step))
+    return out
+
+
+def register_slice(ix):
+    """C17: `Slice(start, stop, step) ... rejects other steps with LenaValueError at construction`.  The constructor
+    distinguishes (a) all arguments None or >= 0: run IS itertools.islice(flow, *args) (the closure _islice) and fill_into
+    walks islice(itertools.count(0), *args) (the ghost progression of C17.py); (b) some negative index: run is replaced by
+    a closure over _run_negative_islice (steps other than 1 through islice(.., None, None, step))."""
+    ix.add_class(ClassSpec("Slice0", IT, fields={}, alias_of="Slice"))
+    MOD = ["self._islice", "self._indices", "self._next_index", "self._index", "self._start", "self._stop", "self._step",
+           "self.run", "self._args"]
+    cases = []
+    for ty, start, stop, step in slice_typings():
+        ints = [c for c in (start, stop, step) if c is not None]
+        nonneg = " and ".join("%s >= 0" % c for c in ints) or "True"
+        k = step or "1"
+        ens = ["self._args is args",
+               # ---- (a) python slice semantics through the library
+               "%s implies self._index == 0 and self._next_index == -1" % nonneg,
+               "%s implies is_closure(self._islice, '%s', args=args)" % (nonneg, ISLICE_LAMBDA),
+               "%s implies arith_next(self._indices) == %s and arith_step(self._indices) == %s" % (nonneg, start or "0", k),
+               "%s implies arith_has_stop(self._indices) == %s" % (nonneg, "True" if stop else "False")]
+        if stop:
+            ens.append("%s implies arith_stop(self._indices) == %s" % (nonneg, stop))
+        # ---- (b) negative indices
+        ens += ["not (%s) implies self._start is %s and self._stop is %s and self._step == %s" % (nonneg, start, stop, k),
+                "not (%s) and %s == 1 implies is_closure(self.run, '%s', self=self)" % (nonneg, k, NEG_LAMBDA_1),
+                "not (%s) and %s != 1 implies is_closure(self.run, '%s', self=self, step=%s)" % (nonneg, k, NEG_LAMBDA_K, k)]
+        cases.append(Contract(
+            IT, "Slice.__init__", name="Slice.__init__[%s]" % ty,
+            params={"self": "Self[Slice0]", "args": ty}, vararg="args",
+            raises={"LenaValueError": ("%s <= 0" % step) if step else "False"},
+            ensures=ens, modifies=MOD))
+    ix.add(Contract(IT, "Slice.__init__", props=["C17"], cases=cases,
+                    notes="every int / None typing of 1..3 arguments; integers are unbounded (CPython also rejects indices "
+                          "above sys.maxsize with ValueError)"))
+
+    # ---- run, all arguments None or >= 0: `Yield values from flow from start to stop with step` == itertools.islice
+    if not hasattr(ix, "closures"):
+        ix.closures = {}
+    ix.closures["slice_islice"] = (ISLICE_LAMBDA, {"args": "_args"}, {"islice": ("itertools", "islice")})
+    XS, N = "content(flow)", "len(content(flow))"
+    rcases, fcases = [], []
+    for idx, (ty, start, stop, step) in enumerate(slice_typings()):
+        S, K = (start or "0").replace("args", "self._args"), (step or "1").replace("args", "self._args")
+        E = stop.replace("args", "self._args") if stop else None
+        ints = [c.replace("args", "self._args") for c in (start, stop) if c is not None]
+        cs = "Slice_nn_%d" % idx
+        # what the constructor guarantees on this branch: indices >= 0, step >= 1 (islice accepted it)
+        ix.add_class(ClassSpec(cs, IT, alias_of="Slice", fields={"_args": ty, "_islice": "Closure[slice_islice]"},
+                               invariant=["%s >= 0" % c for c in ints] + (["%s >= 1" % K] if step else [])))
+        IDX = "%s + {k} * %s" % (S, K)
+        BOUND = "min(%s, %s)" % (E, N) if E else N
+        inv = ["len(out) == _i",
+               "pulled(flow) == (0 if _i == 0 else %s + 1)" % IDX.format(k="(_i - 1)"),
+               "all(out[k] is %s[%s] for k in range(_i))" % (XS, IDX.format(k="k")),
+               "_i == 0 or %s < %s" % (IDX.format(k="(_i - 1)"), BOUND)]
+        ens = ["all(out[k] is %s[%s] for k in range(len(out)))" % (XS, IDX.format(k="k")),
+               # len(out) is the number of indices start + k * step below min(stop, len(xs)): python's xs[start:stop:step]
+               "len(out) == 0 or %s < %s" % (IDX.format(k="(len(out) - 1)"), BOUND),
+               "%s >= %s" % (IDX.format(k="len(out)"), BOUND),
+               # C02: never reads past what start / stop require
+               ("pulled(flow) <= max(%s, %s)" % (S, E)) if E else "pulled(flow) == %s" % N]
+        lazy = ["pulled(flow) == %s + 1" % IDX.format(k="_i"), "yielded is %s[%s]" % (XS, IDX.format(k="_i"))]
+        if E:
+            lazy.append("%s < %s" % (IDX.format(k="_i"), E))
+        rcases.append(Contract(
+            IT, "Slice.run", name="Slice.run[non-negative, %s]" % ty,
+            params={"self": "Self[%s]" % cs, "flow": "Iter[V]"}, generator=True, yields="V",
+            requires=["pulled(flow) == 0"],
+            loops={0: LoopSpec(invariant=inv)}, at_yield=lazy, ensures=ens, modifies=["flow"]))
+        if E:
+            fcases.append(Contract(
+                IT, "Slice.run", name="Slice.run[non-negative, %s, never past stop]" % ty,
+                params={"self": "Self[%s]" % cs, "flow": "Iter[V]"}, generator=True, yields="V",
+                requires=["pulled(flow) == 0"], loops={0: LoopSpec(invariant=inv)},
+                ensures=["pulled(flow) <= %s" % E], modifies=["flow"]))
+    ix.add(Contract(IT, "Slice.run", props=["C17", "C02"], cases=rcases,
+                    notes="the returned itertools.islice object is verified as a generator delegating to it (the library "
+                          "contract of islice gives the pulls)"))
+    ix.add(Contract(IT, "Slice.run", qualkey="Slice.run#past-stop", props=[], cases=fcases,
+                    notes="FINDING (fails on the unchanged tree for start > stop): Slice(start, stop) with start > stop "
+                          "reads `start` values although no value can be selected"))
+
+    # ---- _run_negative_islice: some index negative, step 1 (other steps: islice(.., None, None, step) over it, see __init__)
+    n = "len(content(flow))"
+    REF = "content(flow)[self._start:self._stop]"
+    ST = "(0 if self._start is None else self._start)"
+    M = "(-self._stop)"
+    M2 = "(-self._start)"
+    KEEP = "min(%s, %s)" % (M2, n)
+    LO = "(%s - %s)" % (n, KEEP)
+    P0 = "(0 if self._start is None else min(self._start, %s))" % n
+    D_TAIL = "all(d[j] is content(flow)[%s - len(d) + j] for j in range(len(d)))" % n
+    OUT_LO = "all(out[k] is content(flow)[%s + k] for k in range(len(out)))" % LO
+    lag_inv = ["len(out) == _i", "pulled(flow) == min(%s + %s, %s) + _i" % (ST, M, n),
+               "len(d) == min(%s, max(0, %s - %s))" % (M, n, ST),
+               "all(d[j] is content(flow)[pulled(flow) - 1 - j] for j in range(len(d)))",
+               "all(out[k] is content(flow)[%s + k] for k in range(_i))" % ST]
+    LOOPS = {
+        # fill_deque: the first maxlen values (fewer if the flow ends), newest first
+        0: LoopSpec(invariant=["len(d) == _i", "pulled(flow) == %s + _i" % P0, "_i <= maxlen", "len(out) == 0",
+                               "all(d[j] is content(flow)[%s + _i - 1 - j] for j in range(_i))" % P0]),
+        # negative stop: hand out the oldest kept value for every new one -- the output lags |stop| values behind
+        1: LoopSpec(invariant=lag_inv), 2: LoopSpec(invariant=lag_inv),
+        # negative start, no stop: the last |start| values
+        3: LoopSpec(invariant=["pulled(flow) == %s" % n, "len(out) + len(d) == %s" % KEEP, D_TAIL, OUT_LO], decreases="len(d)"),
+        # negative start < negative stop
+        4: LoopSpec(invariant=["pulled(flow) == %s" % n, "len_d == %s" % KEEP, "ind == len(out)", "ind >= 0",
+                               "len(d) == len_d - ind", "ind <= max(0, len_d + self._stop)", D_TAIL, OUT_LO],
+                    decreases="len_d + self._stop - ind"),
+        # negative start, stop >= 0: stop reading as soon as the flow is known to be too long for anything to be selected
+        5: LoopSpec(invariant=["ind == _i", "pulled(flow) == _i", "len(d) == min(_i, %s)" % M2, "len(out) == 0",
+                               "ind <= self._stop - self._start",
+                               "all(d[j] is content(flow)[_i - len(d) + j] for j in range(len(d)))"]),
+        6: LoopSpec(invariant=["pulled(flow) == %s" % n, "ind == %s + len(out)" % LO, "len(d) == %s - ind" % n,
+                               "ind <= max(self._stop, %s)" % LO,
+                               "all(d[j] is content(flow)[ind + j] for j in range(len(d)))", OUT_LO],
+                    decreases="len(d)"),
+    }
+    FWD = "(self._start is None or self._start >= 0)"          # the branches with a negative stop only
+    ncases = []
+    for sty, ety, inv in (("None", "Int", ["self._stop < 0"]), ("Int", "None", ["not (self._start >= 0)"]),      # (the form in which the code tests it)
+                          ("Int", "Int", ["self._start < 0 or self._stop < 0"])):
+        cs = "Slice_neg_%s_%s" % (sty.lower(), ety.lower())
+        ix.add_class(ClassSpec(cs, IT, alias_of="Slice", fields={"_start": sty, "_stop": ety, "_step": "Int"},
+                               invariant=inv + ["self._step >= 1"]))
+        ncases.append(Contract(
+            IT, "Slice._run_negative_islice", name="Slice._run_negative_islice[start: %s, stop: %s]" % (sty.lower(), ety.lower()),
+            params={"self": "Self[%s]" % cs, "flow": "Iter[V]"}, generator=True, yields="V",
+            requires=["pulled(flow) == 0"], loops=LOOPS,
+            at_yield=[
+                # C02: `a negative stop lags its input by exactly |stop| values` and keeps only |stop| of them alive
+                "%s implies yielded is content(flow)[%s + len(out)]" % (FWD, ST),
+                "%s implies pulled(flow) == %s + len(out) + %s + 1" % (FWD, ST, M),
+                "%s implies len(d) + 1 <= %s" % (FWD, M),
+                # a negative start needs the whole flow, of which it keeps |start| values
+                "not %s implies pulled(flow) == %s and len(d) < %s" % (FWD, n, M2),
+                "not %s implies yielded is content(flow)[%s + len(out)]" % (FWD, LO)],
+            ensures=["len(out) == len(%s)" % REF, "all(out[k] is %s[k] for k in range(len(out)))" % REF,
+                     # C02: no more is read than the indices require
+                     "not %s and self._stop is not None and self._stop <= self._start implies pulled(flow) == 0" % FWD,
+                     "not %s and self._stop is not None and self._stop >= 0 implies pulled(flow) <= self._stop - self._start + 1" % FWD],
+            modifies=["flow"]))
+    ix.add(Contract(IT, "Slice._run_negative_islice", props=["C17", "C02"], cases=ncases))
+
+
+# ---------------------------------------------------------------------------------------------- RunningChunkBy
+def register_chunks(ix):
+    """C17: `RunningChunkBy equal[s] ... the sliding windows of the given size`: the k-th result is the container made of
+    xs[k : k + size], there are max(0, len(xs) - size + 1) of them (`If the flow contains fewer than chunk_size values,
+    nothing is yielded`).  Containers: tuple; an abstract constructor called with the window as ONE iterable
+    (from_iterable=True) or with its items as positional arguments (e.g. a namedtuple).  The element reads one value ahead
+    of the window it hands over (it learns only then that the window is not the last one)."""
+    XS, N, CS = "content(flow)", "len(content(flow))", "self._cs"
+    COUNT = "max(0, %s - %s + 1)" % (N, CS)
+
+    def loop_inv(count, extra):
+        return LoopSpec(invariant=["pulled(flow) == min(%s, %s) + _i" % (CS, N), "len(chunk) == min(%s, %s)" % (CS, N),
+                                   "all(chunk[j] is %s[_i + j] for j in range(len(chunk)))" % XS, "%s == _i" % count] + extra)
+    ix.add_class(ClassSpec("RunningChunkBy_tuple", FE, alias_of="RunningChunkBy", invariant=["self._cs >= 1"],
+                           fields={"_cs": "Int", "_container": "Builtin[tuple]", "_from_iterable": "Bool"}))
+    ix.add_class(ClassSpec("RunningChunkBy", FE, invariant=["self._cs >= 1", "not (self._container == tuple)"],
+                           fields={"_cs": "Int", "_container": "Obj", "_from_iterable": "Bool"}))
+    LAZY = "pulled(flow) == %s + {k} + (1 if in_loop(0) or in_loop(1) else 0)" % CS
+    REFV = "(chunk_call(self._container, %s, {k}, %s) if self._from_iterable else chunk_call_star(self._container, %s, {k}, %s))" \
+        % (XS, CS, XS, CS)
+    ix.add(Contract(FE, "RunningChunkBy.run", props=["C17"], cases=[
+        Contract(FE, "RunningChunkBy.run", name="RunningChunkBy.run[tuple]",
+                 params={"self": "Self[RunningChunkBy_tuple]", "flow": "Iter[V]"}, generator=True, yields="Any",
+                 requires=["pulled(flow) == 0"],
+                 loops={0: loop_inv("yield_count()", []), 1: loop_inv("yield_count()", [])},
+                 at_yield=["isinstance(yielded, tuple)", "len(yielded) == %s" % CS,
+                           "all(yielded[j] is %s[yield_count() + j] for j in range(%s))" % (XS, CS),
+                           "yield_count() + %s <= %s" % (CS, N), LAZY.format(k="yield_count()")],
+                 ensures=["yield_count() == %s" % COUNT, "pulled(flow) == %s" % N],
+                 modifies=["flow"]),
+        Contract(FE, "RunningChunkBy.run", name="RunningChunkBy.run[abstract container]",
+                 params={"self": "Self[RunningChunkBy]", "flow": "Iter[V]"}, generator=True, yields="V",
+                 requires=["pulled(flow) == 0"],
+                 loops={k: loop_inv("len(out)", ["all(out[k] is %s for k in range(_i))" % REFV.format(k="k")]) for k in (0, 1)},
+                 raises={"Exception": "?"},          # the container's constructor may raise
+                 at_yield=["yielded is %s" % REFV.format(k="len(out)"), "len(out) + %s <= %s" % (CS, N),
+                           LAZY.format(k="len(out)")],
+                 ensures=["len(out) == %s" % COUNT, "all(out[k] is %s for k in range(len(out)))" % REFV.format(k="k"),
+                          "pulled(flow) == %s" % N],
+                 modifies=["flow"]),
+    ]))
+
+
+# ---------------------------------------------------------------------------------------------- Progress
+def register_progress(ix):
+    """`Consume the flow, then yield values one by one and print progress`: a pass-through that is documented to be eager
+    (it must know the total); the values come out unchanged and in order"""
+    PG = "lena/flow/progress.py"
+    XS, N = "content(flow)", "len(content(flow))"
+    ix.add_class(ClassSpec("Progress", PG, fields={"_format": "Str", "_name": "Str"}))
+    ix.add(Contract(
+        PG, "Progress.run", props=["C02"],
+        params={"self": "Self[Progress]", "flow": "Iter[V]"}, generator=True, yields="V",
+        requires=["pulled(flow) == 0"],
+        loops={0: LoopSpec(invariant=["len(out) == _i", "total == %s" % N, "len(values) == total - _i",
+                                      "all(values[j] is %s[_i + j] for j in range(len(values)))" % XS,
+                                      "all(out[k] is %s[k] for k in range(_i))" % XS, "pulled(flow) == %s" % N])},
+        at_yield=["yielded is %s[len(out)]" % XS, "pulled(flow) == %s" % N],
+        ensures=["len(out) == %s" % N, "all(out[k] is %s[k] for k in range(len(out)))" % XS, "pulled(flow) == %s" % N],
+        modifies=["flow"]))
+
+
+# ---------------------------------------------------------------------------------------------- Chain
+def register_chain(ix):
+    """C17: `Chain ... equal[s] itertools.chain`: `after the first [iterable] is exhausted, the second is called, etc.` --
+    for sequences (lists): the concatenation, for 0..3 of them"""
+    ix.add_class(ClassSpec("Chain0", IT, fields={}, alias_of="Chain"))
+    ccases, icases = [], []
+    for n in range(4):
+        ty = "Tuple[%s]" % ",".join(["Lst[V]"] * n)
+        cs = "Chain_%d" % n
+        ix.add_class(ClassSpec(cs, IT, fields={"_iterables": ty}, alias_of="Chain"))
+        ref = "None"
+        off = " + ".join("len(self._iterables[%d])" % j for j in range(n)) or "0"
+        for j in reversed(range(n)):
+            start = " + ".join("len(self._iterables[%d])" % i for i in range(j)) or "0"
+            item = "self._iterables[%d][k - (%s)]" % (j, start)
+            ref = item if j == n - 1 else "(%s if k < %s + len(self._iterables[%d]) else %s)" % (item, start, j, ref)
+        inv = ["len(out) == _i"] + (["all(out[k] is %s for k in range(_i))" % ref] if n else [])
+        ccases.append(Contract(
+            IT, "Chain.__call__", name="Chain.__call__[%d lists]" % n,
+            params={"self": "Self[%s]" % cs}, generator=True, yields="V",
+            loops={0: LoopSpec(invariant=inv)} if n else {},
+            ensures=["len(out) == %s" % off] + (["all(out[k] is %s for k in range(len(out)))" % ref] if n else [])))
+        icases.append(Contract(IT, "Chain.__init__", name="Chain.__init__[%d lists]" % n,
+                               params={"self": "Self[Chain0]", "iterables": ty}, vararg="iterables",
+                               ensures=["self._iterables is iterables"], modifies=["self._iterables"]))
+    ix.add(Contract(IT, "Chain.__call__", props=["C17"], cases=ccases))
+    ix.add(Contract(IT, "Chain.__init__", props=["C17"], cases=icases))
